@@ -41,13 +41,62 @@ def histogram(line):
     return keys
 
 
+_COQ_DIR = os.path.join(os.path.dirname(os.path.dirname(os.path.abspath(__file__))), "coq", "score")
+_BASE_FILES = ["ScoreModel.v", "SimdModel.v", "GenAvx2.v", "GenLane4.v", "ScoreCheck.v", "ScoreProofs.v",
+               "SimdProofs.v", "Sse2Proofs.v", "F32Proofs.v", "CheckProofs.v", "ReadmeExample.v", "C01.v",
+               "Extract.v"]
+# the only files that depend on another model group (coq/stripe, property C04)
+_BRIDGE_FILES = ["StripeBridge.v", "C01History.v"]
+
+
+def _write_project(bridge):
+    lines = ["-Q ../base LMBase"] + (["-Q ../stripe LMStripe"] if bridge else []) + ["-Q . LMScore"]
+    lines += _BASE_FILES + (_BRIDGE_FILES if bridge else [])
+    text = "\n".join(lines) + "\n"
+    path = os.path.join(_COQ_DIR, "_CoqProject")
+    try:
+        old = open(path).read()
+    except OSError:
+        old = None
+    if old != text:
+        with open(path, "w") as f:
+            f.write(text)
+
+
+def _bridge():
+    """Decide whether the composition with the striping model of C04 (C01History.v) is part of
+    this run.  It is left out -- with a note, never silently -- when coq/stripe does not build or
+    no longer offers the interface StripeBridge.v uses: a problem of the other group must not
+    turn every C01 obligation into a broken one."""
+    from vlib import common as C
+    try:
+        r = C.build_coq("stripe")
+        if not r.get("ok"):
+            _write_project(False)
+            return False, "C01History.v (composition with C04) left out: coq/stripe does not build (%s line %s)" % (
+                r.get("failed_file"), r.get("failed_line"))
+        _write_project(True)
+        r = C.build_coq("score")
+        if not r.get("ok") and (r.get("failed_group") == "stripe" or
+                                 os.path.basename(r.get("failed_file") or "") in _BRIDGE_FILES):
+            _write_project(False)
+            return False, "C01History.v (composition with C04) left out: %s line %s does not build against coq/stripe" % (
+                r.get("failed_file"), r.get("failed_line"))
+        return True, "C01History.v (composition with the striping model of C04) included"
+    except Exception as e:  # never let the probe crash the check
+        _write_project(False)
+        return False, "C01History.v left out: probe raised %r" % (e,)
+
+
 def translate():
     # GenAvx2.v (AVX2 lane tables, dispatcher table) and GenLane4.v (SSE2 / NEON interleaving
     # paths and store offsets)
     from translate import score_avx2, score_lane4
     a, b = score_avx2.run(), score_lane4.run()
+    bridged, note = _bridge()
+    SPEC["more_props"] = [("C01History.v", "LMScore.C01History")] if bridged else []
     return dict(ok=a.get("ok", True) and b.get("ok", True),
-                notes=a.get("notes", []) + b.get("notes", []),
+                notes=a.get("notes", []) + b.get("notes", []) + [note],
                 errors=a.get("errors", []) + b.get("errors", []))
 
 
@@ -56,24 +105,31 @@ SPEC = dict(
     group="score",
     props_file="C01.v",
     module="LMScore.C01",
+    more_props=[],
     harness_bin="score",
     ml_modules=["score_model"],
     n={"quick": 1200, "thorough": 16000},
-    search_n={"quick": 3000, "thorough": 20000},
+    search_n={"quick": 2000, "thorough": 12000},
     nontrivial=nontrivial,
     histogram=histogram,
     translate=translate,
-    rule="Proof: 24 theorems of coq/score/C01.v, for all inputs (no size bound): generic pipeline cell = defined "
+    rule="Proof: 28 theorems of coq/score/C01.v (+ 2 of C01History.v), for all inputs (no size bound): generic pipeline cell = defined "
          "left-to-right sum for any carrier/addition (score_generic_cell, score_unstripe: exactly L-M+1 values, none "
          "when L<M; score_rows_sub; score_position); AVX2 permute and gather kernels, the AVX2 wrapper, the SSE2 "
          "kernel (any multiple of 16 columns; abstract addition with x+0=x off -0, instantiated for binary32 from "
          "Flocq) and every arm of the dispatcher equal the generic pipeline for every row range, every previous "
          "buffer content and every padding content (lane tables regenerated from avx2.rs/dispatch.rs by the "
-         "translator and re-checked by reflection); sub-range, L<M and unconfigured-wrap guards per backend; 16- and "
+         "translators and re-checked by reflection: avx2_layout_ok, lane4_layout_ok); the NEON kernel (translator + "
+         "proof only, not compiled on x86) equals generic on every in-matrix range and is refuted beyond "
+         "(C01_neon_range_unguarded_refuted: its wrapper lacks the row-range assertion); sub-range, L<M and "
+         "unconfigured-wrap guards per backend; Index<usize>; 16- and "
          "32-column layouts; IEEE facts from Flocq: neg_inf_absorbs, fsum_error_bound (FULL: |fl(sum)-sum| <= "
          "((1+2^-24)^n - 1) * sum|t| when no partial sum overflows), a computable no-overflow condition "
          "(n <= 2^23, sum|t| <= 2^126), defined_sum_holds; check_C01_sound (the extracted checker implies the "
-         "real-number statement Holds_C01). "
+         "real-number statement Holds_C01), C01_model_passes_checker (no false alarm on the model); "
+         "C01History.v: the Striped hypothesis is discharged for the state reached by any history of "
+         "stripe/stripe_into/configure/configure_wrap calls of the C04 model (left out, with a note in the "
+         "evidence, when coq/stripe does not build). "
          "Correspondence run: DNA (K=5, AVX2 permute path) and protein (K=21, AVX2 gather path) cases; C=32 through "
          "Pipeline::generic/sse2/avx2, Pipeline::dispatch() and ScoringMatrix::score under each forced arm "
          "(verif hook) and unforced; C=16 and C=48 through generic and SSE2; M in 0..40; L in {0..M+2}, "
@@ -96,9 +152,10 @@ SPEC = dict(
         "extraction: ExtrOcamlBasic only (nat, N, Z, positive, Flocq floats kept as extracted inductives); OCaml 4.13.1",
         "hand-written OCaml driver ocaml/score/driver.ml (parsing, comparison of bit patterns across pipelines, sampling of rows for the costly kernel models)",
         "Rust harness harness/src/bin/score.rs (calls the public API, catch_unwind, prints bit patterns; `=` back-references for results identical to the generic pipeline's)",
-        "translator translate/score_avx2.py (regex extraction of the shuffle masks and which accumulator each feeds, permute2f128 operands, store offsets and the dispatcher's match arms)",
+        "translators translate/score_avx2.py (regex extraction of the AVX2 shuffle masks and which accumulator each feeds, permute2f128 operands, store offsets, the dispatcher's match arms) and translate/score_lane4.py (SSE2 unpack / NEON zip network as paths of halves, accumulator pairing, store offsets); both also require the loop and pointer-advance statements to have the modelled shape",
         "lane-wise semantics given to the x86 intrinsics in coq/score/SimdModel.v (shuffle_epi8, unpack*_epi8, permutevar8x32, i32gather, permute2f128, cmpeq/and, add_ps, stream stores), exercised by the correspondence run",
-        "modelled, not verified: the Rust code itself (pli/mod.rs, avx2.rs, sse2.rs, dispatch.rs, scores.rs, seq.rs, pwm/mod.rs as read); NEON kernels are not compiled on this host and are not covered",
+        "modelled, not verified: the Rust code itself (pli/mod.rs, avx2.rs, sse2.rs, dispatch.rs, scores.rs, seq.rs, pwm/mod.rs as read); the NEON f32 kernel is modelled and tied by the translator and the proof only (not compiled on this host, never executed: its intrinsics semantics is untested)",
+        "for C01History.v: the striping model and theorems of property C04 (coq/stripe, another group)",
     ],
     assumptions=[
         "the sequence matrix satisfies Striped C s m (proved for the library's striping under C04; checked by the driver on every matrix the library built, incl. after re-configuration)",
